@@ -84,6 +84,7 @@ vars == <<ver, toks, phase, gen, pos, stack, result>>
 
 ASSUME Emit => PrintT(<<"needsep", NeedSep>>)
 ASSUME Emit => PrintT(<<"layouts", [v \in AllVersions |-> Layouts(v)]>>)
+ASSUME Emit => PrintT(<<"seqtypes", SeqTypes>>)
 ASSUME LayoutsOK
 
 (* ---- tables -------------------------------------------------------------- *)
